@@ -99,7 +99,9 @@ impl Socket for TcpSocketImpl {
     }
 
     fn send(&mut self, data: &[u8]) -> GDResult<()> {
-        self.socket.write(data).map_err(|e| PacketSend.context(e))?;
+        self.socket
+            .write_all(data)
+            .map_err(|e| PacketSend.context(e))?;
         Ok(())
     }
 
